@@ -154,6 +154,12 @@ func runMutant(self, prop, repo, tmp string, m mutant, baseline map[string]bool)
 		return res
 	}
 	mutated := strings.Replace(string(src), m.Old, m.New, 1)
+	// a mutant that brings a call into a package the file does not import yet
+	for _, pkg := range []string{"errors", "sort"} {
+		if strings.Contains(m.New, pkg+".") && !strings.Contains(m.Old, pkg+".") && !strings.Contains(mutated, "\""+pkg+"\"") {
+			mutated = strings.Replace(mutated, "import (", "import (\n\t\""+pkg+"\"", 1)
+		}
+	}
 	if err := os.WriteFile(filepath.Join(scratch, m.File), []byte(mutated), 0o644); err != nil {
 		res.Status, res.Note = "builderror", err.Error()
 		return res
